@@ -2,10 +2,11 @@ SPECIFICATION Spec
 CONSTANTS
   Design = "code"
   Arity4 = FALSE
-  FirstRowCovered = TRUE
-  CompactD1 = FALSE
+  FirstRowCovered = FALSE
+  CompactD1 = TRUE
   MaxSponge = 3
   MaxDepth = 4
 INVARIANTS
-  EveryWitnessLimbBound
+  PadsAreFixed
+  EveryChainedLimbBound
 CHECK_DEADLOCK FALSE
